@@ -226,7 +226,7 @@ def run(c) -> CaseResult:
 
 CHECK = Check(
     id="C11",
-    parts=[Part("groups", run, strategy=cases, budget={"quick": 2000, "thorough": 40000})],
+    parts=[Part("groups", run, strategy=cases, budget={"quick": 5000, "thorough": 300000})],
     rule=("Hypothesis: 1-6 groups x 1-5 float64 parameters (tagged, or untagged when allowed), optional per-group lr (own value or the "
           "*same* tensor object as the global lr), weight_decay in [0,0.5], extra keys (betas, eps, momentum, foo), or bare list / generator; "
           "float / float32 / float64 tensor lr; independent weight decay on/off; through scaled_parameters and through the optimizer "
